@@ -166,12 +166,14 @@ class Mode(LogMixin):
             self.debug_log("Mode already starting. Aborting start.")
             return
 
+        self._starting = True
+
         if self._cleanup_pending:
             # restarted from a handler of our own mode_(name)_stopped event: finish the previous stop first.
             # Otherwise its callback would later remove the handlers and devices of this new start.
+            # _starting is already set: a stop callback which also restarts us (stop(callback=mode.start)) must not
+            # start the mode a second time from inside this start.
             self._mode_stopped_callback()
-
-        self._starting = True
 
         self.machine.events.post('mode_{}_will_start'.format(self.name), **kwargs)
         '''event: mode_(name)_will_start
